@@ -3,7 +3,8 @@
 
 Proof part: Lean model Lfq/Model.lean (one step per load / cmpxchg of _cds_lfq_enqueue_rcu, enqueue_dummy,
 _cds_lfq_dequeue_rcu, destroy; any number of threads, every interleaving, nodes and dummies recycled after an
-abstract grace period), invariant Lfq/Inv*.lean, theorems of Props/C12.lean (refinement to a sequential FIFO,
+abstract grace period), invariant Lfq/Inv*.lean, the same model on x86-TSO with explicit store buffers
+(Lfq/TsoModel.lean) and its simulation into the SC model (Lfq/TsoSim.lean), theorems of Props/C12.lean (refinement to a sequential FIFO,
 history / trace form, exactly-once, NULL only when empty, dummies never returned, reclamation only after a grace
 period, no ABA / use-after-free, destroy iff empty) and Props/C17Lfq.lean (solo-run termination with the explicit
 measure `mu`).  The theorems are about `Current c` (helpTail = destroyWalk = true) = the text in /repo today; the
@@ -29,6 +30,10 @@ THEOREMS = [L + x for x in (
     "always_one_node", "each_node_dequeued_once", "dummy_freed_after_gp", "no_aba", "reclaim_blocked_while_held",
     "cas_next_success_means_last", "destroy_iff_empty", "dequeue_null_only_if_empty_at_some_instant",
     "private_until_published", "C12_full_holds", "inv_step", "reach_inv",
+    # x86-TSO: the model with store buffers simulates into the SC model; the property restated on the TSO machine
+    "tso_simulates_sc", "tso_step_is_sc_step", "tso_loads_see_sc_memory", "tso_buffers_private", "tso_refines_fifo",
+    "tso_trace_refines", "C12_tso_full_holds", "Tso.sim_step", "Tso.treach_sim", "Tso.sim_abs",
+    "Tso.Neg.uaf_reachable_without_drain",
     "Neg.uaf_reachable_unfixed", "Neg.destroy_eperm_on_empty_reachable_unfixed")]
 UNPROVED = []   # C12_full is proved at the level of the model (C12_full_holds); what is not a theorem is listed in TRUSTED
 C17 = "UrcuVerif.C17Lfq."
@@ -39,11 +44,15 @@ THEOREMS17 = [C17 + x for x in (
 AUDIT_MODS = ["UrcuVerif.Lfq", "UrcuVerif.Props.C12", "UrcuVerif.Props.C17Lfq", "UrcuVerif.Machine"]
 TRUSTED = [
     "Lean 4.33 kernel; axioms ⊆ {propext, Classical.choice, Quot.sound}",
-    "memory model: every shared mutation of rculfqueue is a locked cmpxchg (full fence, acts on memory atomically), the loads are "
-    "rcu_dereference loads; the plain initialising stores of a node / dummy (next, dummy flag) are folded into the step that makes "
-    "the node private to its thread – sound on x86-TSO because the publishing cmpxchg drains the owner's store buffer and no other "
-    "thread can hold a pointer to the node before it (UrcuVerif.Lfq.private_until_published); the TSO machine itself is not "
-    "instantiated for this structure (an SC run of the model's steps = a TSO run)",
+    "memory model: x86-TSO as in Lfq/TsoModel.lean – the plain initialising stores of a node / dummy (cds_lfq_node_init_rcu: "
+    "next = NULL, dummy = 0; make_dummy: next = NULL, dummy = 1) go through the issuing thread's FIFO store buffer (flush = "
+    "environment step), loads read the own buffer first, the five cmpxchg sites are locked RMWs that need an empty own buffer "
+    "and act on memory atomically (hardware guarantee for lock-prefixed instructions; without it a use-after-free is reachable: "
+    "Tso.Neg.uaf_reachable_without_drain); section entry/exit is modelled without any fence (weakest flavor); the theorems "
+    "tso_simulates_sc / C12_tso_full_holds transfer the whole property to that machine; dummy->q (read only by the remover after "
+    "its own locked CAS) and the rcu_head are not modelled; the classification of the accesses is cross-checked on every trace "
+    "(the driver accepts only LD and seq_cst CAS events on q.head, q.tail and the next word of nodes / dummies inside the "
+    "operations; coverage.queue_word_accesses counts them over all traces: the plain stores are not shim events at all)",
     "grace periods are abstract (GpSpec): a removed node / dummy may be reclaimed only when every read-side section that is open "
     "began after its removal; the harness maps the real rcu_read_lock/unlock, synchronize_rcu() and call_rcu() of src/urcu.c "
     "(memb with / without sys_membarrier, mb) to these steps and the model's guard is re-checked at every real reclamation "
@@ -78,6 +87,7 @@ REQUIRED17 = ["solo_run", "solo_run_long"]
 NONTRIVIAL = ("enq_link_adv_lost", "enq_help_ok", "enq_help_lost", "deq_cas_head_lost", "deq_help_tail_ok", "deq_help_tail_lost",
               "destroy_ok_several_dummies")
 MODES = ("uaf-node", "uaf-dummy", "two-dummies")
+QWORD = rb"(?:q\.head|q\.tail|node\d+|dummy\d+)"
 
 
 def build():
@@ -105,6 +115,12 @@ def one(cfg, seed, extra=()):
         except OSError:
             trace = b""
         res["events"] = trace.count(b"\n")
+        # classification of the accesses assumed by Lfq/TsoModel.lean: the queue's words are only loaded or CASed
+        res["acc"] = {k.decode(): len(re.findall(rb"^T\d+ " + k + rb" " + QWORD + rb" ", trace, re.M)) for k in (b"LD", b"CAS")}
+        # any other primitive on these words inside an operation is a divergence of the driver; outside (an application that
+        # initialises nodes with an atomic store, say) it is harmless – stronger than the buffered plain store of the model – and
+        # only counted
+        res["acc"]["other (ST/XCHG/ADD/...)"] = len(re.findall(rb"^T\d+ (?:ST|XCHG|ADD|ADDR|SUB|SUBR|AND|OR) " + QWORD + rb" ", trace, re.M))
         m = re.search(rb"# END steps=(\d+)", trace[-400:])
         res["steps"] = int(m.group(1)) if m else res["events"]
         if rc not in (0, 3, 4, 5):
@@ -118,6 +134,7 @@ def one(cfg, seed, extra=()):
             res.update(verdict="oracle", kinds=kinds, oracle=[l for l in err.strip().splitlines() if "ORACLE" in l][:4])
         elif drc != 0:
             res.update(verdict="diverge")
+
         else:
             res.update(verdict="ok")
             res["cov"] = dict((k, int(v)) for k, v in (x.split("=") for x in dout.split()[2:] if "=" in x))
@@ -213,6 +230,9 @@ def record(chk, results):
             continue
         chk.cov["traces_validated_against_impl"] = chk.cov.get("traces_validated_against_impl", 0) + 1
         chk.cov["events_compared"] = chk.cov.get("events_compared", 0) + r["events"]
+        acc = chk.cov.setdefault("queue_word_accesses", {"LD": 0, "CAS": 0, "other (ST/XCHG/ADD/...)": 0})
+        for k, v in r.get("acc", {}).items():
+            acc[k] += v
         for k, v in r["cov"].items():
             if k == "solo_max_steps":
                 chk.cov["solo_max_own_steps"] = max(chk.cov.get("solo_max_own_steps", 0), v)
@@ -307,6 +327,13 @@ def run(chk):
         record(chk, results)
         chk.cov["sweep_runs"] = len(results)
     finish_cov(chk, "C12", REQUIRED)
+    try:   # informational: the stores Lfq/TsoModel.lean routes through the store buffer are plain assignments in today's text
+        hdr = open(os.path.join(vlib.REPO, "include", "urcu", "static", "rculfqueue.h")).read()
+        chk.cov["plain_init_stores_in_source"] = {pat: (pat in hdr) for pat in (
+            "node->next = NULL;", "node->dummy = 0;", "dummy->parent.next = next;", "dummy->parent.dummy = 1;")}
+        chk.cov["cmpxchg_sites_in_source"] = hdr.count("uatomic_cmpxchg_mo(")
+    except OSError:
+        pass
     report(chk, fails, OWN12, searcher(chk, OWN12, False, 150 if quick else 1500))
     if not fails and chk.cov["required_branches_missing"]:
         # a coverage gap is a property of the generator, not of /repo: recorded, never an alarm
